@@ -379,3 +379,81 @@ func c13TrustAnchorsOnlyFromConfig(c *Ctx) {
 		c.Unresolved("C13.R13", "CertPool.AddCert / AppendCertsFromPEM calls under pkg/mtls")
 	}
 }
+
+// c13ProvidersInConfigOrder (R14): the list GetConfigForClient walks is the configured context list, in its order.
+// Selection falls back on order ("first matching ALPN", "first ready context", R5), so the result is the configured one
+// only if mng.providers is an ordered image of the listener's tls contexts. Clause: in NewTLSServerContextManager the
+// append to mng.providers sits in exactly the loops over cfg.FilterChains and its TLSContexts (no further pass around
+// them), and inside an iteration every path from its beginning reaches NewProvider - no context is postponed or skipped by
+// a condition on its kind (SDS or static). Otherwise a context configured second is consulted first once it is ready,
+// and the first context's verify_client / CA is bypassed.
+func c13ProvidersInConfigOrder(c *Ctx) {
+	fn := c.F("pkg/mtls", "NewTLSServerContextManager")
+	if fn == nil {
+		c.Unresolved("C13.R14", "NewTLSServerContextManager")
+		return
+	}
+	var app, newProv ssa.Instruction
+	forEachInstr(fn, false, func(_ *ssa.Function, in ssa.Instruction) {
+		call, ok := in.(*ssa.Call)
+		if !ok {
+			return
+		}
+		if b, isB := call.Common().Value.(*ssa.Builtin); isB && b.Name() == "append" {
+			if _, f, _, okf := loadedField(call.Common().Args[0]); okf && f == "providers" {
+				app = in
+			}
+		}
+		if methodName(call.Common()) == "NewProvider" {
+			newProv = in
+		}
+	})
+	if app == nil || newProv == nil {
+		c.Unresolved("C13.R14", "append to mng.providers / NewProvider call in NewTLSServerContextManager")
+		return
+	}
+	loops := naturalLoops(fn)
+	var enclosing []*ssa.BasicBlock
+	for h, body := range loops {
+		if body[app.Block()] {
+			enclosing = append(enclosing, h)
+		}
+	}
+	c.Check("C13.R14", funcKey(fn)+":providers-built-in-one-pass", app.Pos(), len(enclosing) == 2, "the append sits in the loops over filter chains and their tls contexts only", fmt.Sprintf("mng.providers is filled inside %d nested loops instead of the two configuration loops: the contexts are appended in several passes, so the provider list is not in configuration order - a context configured second is chosen first whenever order decides (first ALPN match, first ready context)", len(enclosing)))
+	// every write of the list appends at its end
+	atEnd := true
+	for _, st := range storesToField(fn, "serverContextManager", "providers", false) {
+		call, ok := st.Val.(*ssa.Call)
+		okApp := false
+		if ok {
+			if b, isB := call.Common().Value.(*ssa.Builtin); isB && b.Name() == "append" {
+				if _, f, _, okf := loadedField(call.Common().Args[0]); okf && f == "providers" {
+					okApp = true
+				}
+			}
+		}
+		if !okApp {
+			atEnd = false
+		}
+	}
+	c.Check("C13.R14", funcKey(fn)+":providers-appended-at-the-end", app.Pos(), atEnd, "mng.providers only grows by append(mng.providers, provider)", "mng.providers is written other than by appending a provider at its end (prepended, rebuilt): the list is not in configuration order")
+	// innermost loop: every path from the start of an iteration reaches NewProvider
+	var inner *ssa.BasicBlock
+	for _, h := range enclosing {
+		if inner == nil || len(loops[h]) < len(loops[inner]) {
+			inner = h
+		}
+	}
+	skip := false
+	if inner != nil {
+		for _, s := range inner.Succs {
+			if !loops[inner][s] || s == inner {
+				continue
+			}
+			if existsPathFrom(s, func(in ssa.Instruction) bool { return in.Block() == inner }, func(in ssa.Instruction) bool { return in == newProv }) != nil {
+				skip = true
+			}
+		}
+	}
+	c.Check("C13.R14", funcKey(fn)+":no-context-postponed", newProv.Pos(), inner != nil && !skip, "every iteration creates its provider", "an iteration over the configured tls contexts can go on to the next context without creating this one's provider: contexts are skipped or postponed, the provider list is no longer an ordered image of the configuration")
+}
